@@ -148,6 +148,7 @@ func gen(g *hx.Gen) {
 	witnessRegisterAsset(g)
 	witnessDupCoinbase(g)
 	witnessAppropriation(g)
+	witnessWide(g)
 	nh := g.N(10, 60)
 	steps := g.N(45, 120)
 	for i := 0; i < nh; i++ {
@@ -278,6 +279,60 @@ func witnessDupCoinbase(g *hx.Gen) {
 	b6h := h.Block(br, nil, regnet.MineOpts{Miner: 2})
 	h.Deliver(b6h)
 	obs()
+}
+
+// witnessWide: a transfer with 65537 outputs. Output indexes are stored as uint16 by the unspent index, so
+// output 65536 would be a second "index 0"; CheckTransactionOutput refuses more than 65535 outputs. The
+// history offers the transaction to the pool and in a block, then tries to spend its output 0 twice.
+func witnessWide(g *hx.Gen) {
+	h := &regnet.HistGen{S: sim, R: g.R, Emit: g.Emit}
+	h.Start()
+	br := &regnet.Branch{}
+	for i := 0; i < 4; i++ {
+		b := h.Block(br, nil, regnet.MineOpts{Miner: 1})
+		h.Deliver(b)
+		br = regnet.Extend(br, b)
+	}
+	var co *regnet.Coin
+	for _, c := range sim.Coins(br) {
+		if c.Addr == 1 && c.CB && c.Height == 1 {
+			cc := c
+			co = &cc
+		}
+	}
+	if co == nil {
+		return
+	}
+	const n = 65537
+	outs := make([]regnet.Out, 0, n)
+	for i := 0; i < n-1; i++ {
+		outs = append(outs, regnet.Out{To: 2, Value: 1000})
+	}
+	outs = append(outs, regnet.Out{To: 1, Value: common.Fixed64(co.Value - int64(n-1)*1000 - 5000000)})
+	wide, err := sim.N.Transfer(1, []ctypes.OutPoint{{TxID: sim.N.TxByID(co.ID).Hash(), Index: uint16(co.Idx)}}, outs, 1<<46+20)
+	if err != nil {
+		panic("harness: " + err.Error())
+	}
+	g.Emit("submit %s", sim.N.DescribeTx(wide))
+	b := h.Block(br, []interfaces.Transaction{wide}, regnet.MineOpts{Miner: 1})
+	rep, _ := h.Deliver(b)
+	if strings.HasPrefix(rep, "main") {
+		br = regnet.Extend(br, b)
+	}
+	g.Emit("obs c p a1 b1 a3 b3 a4 b4")
+	for k, to := range []int{3, 4} {
+		sp, err := sim.N.Transfer(2, []ctypes.OutPoint{{TxID: wide.Hash(), Index: 0}}, []regnet.Out{{To: to, Value: 400}}, uint64(1<<46+21+k))
+		if err != nil {
+			panic("harness: " + err.Error())
+		}
+		g.Emit("submit %s", sim.N.DescribeTx(sp))
+		nb := h.Block(br, []interfaces.Transaction{sp}, regnet.MineOpts{Miner: 1})
+		rep, _ := h.Deliver(nb)
+		if strings.HasPrefix(rep, "main") {
+			br = regnet.Extend(br, nb)
+		}
+		g.Emit("obs c p a1 b1 a3 b3 a4 b4")
+	}
 }
 
 // apprTx builds a CRCAppropriation: inputs, first output to the CR expenses address (account 3), second to the
